@@ -941,6 +941,13 @@ func (st *State) mapUpdate(mv, k, v Value, mt types.Type) {
 	m.vals = append(m.vals, v)
 }
 
+func (st *State) mapVal(m *MapObj, i int) Value {
+	if sr, ok := m.vals[i].(slotRef); ok {
+		return st.loadT(sr.addr, m.vtyp)
+	}
+	return m.vals[i]
+}
+
 func (st *State) mapLookup(mv, k Value) (val Value, ok *smt.Term) {
 	m := st.mapObj(mv, false)
 	if m == nil {
@@ -949,11 +956,11 @@ func (st *State) mapLookup(mv, k Value) (val Value, ok *smt.Term) {
 	for i, ek := range m.keys {
 		eq := st.valueEq(ek, k, m.ktyp)
 		if eq.IsTrue() {
-			return m.vals[i], st.c.True
+			return st.mapVal(m, i), st.c.True
 		}
 		if !eq.IsFalse() {
 			if st.branch(eq, "mapkey") {
-				return m.vals[i], st.c.True
+				return st.mapVal(m, i), st.c.True
 			}
 		}
 	}
@@ -995,7 +1002,9 @@ func (st *State) rangeInit(in *ssa.Range) Value {
 		it := &rangeIter{isMap: true}
 		if m != nil {
 			it.keys = append([]Value(nil), m.keys...)
-			it.vals = append([]Value(nil), m.vals...)
+			for i := range m.vals {
+				it.vals = append(it.vals, st.mapVal(m, i))
+			}
 		}
 		return it
 	}
@@ -1078,6 +1087,9 @@ func (st *State) lenientStore(in *ssa.Store) {
 	defer func() {
 		if r := recover(); r != nil {
 			pe, ok := r.(*pathEnd)
+			if !ok {
+				fmt.Fprintf(os.Stderr, "engine panic at %s: %v (store %s of type %s)\n", st.curPos(), r, in, in.Val.Type())
+			}
 			if !ok || (pe.status != "UNSUPPORTED" && pe.status != "PANIC" && pe.status != "OOB") {
 				panic(r)
 			}
